@@ -467,9 +467,13 @@ theorem natO_sound (truthy : α → Bool) (o : Op α) {st st' : NSt α} {shs' : 
                                         simp only [interpO, htc, if_true]
                                         have : (st0.loc, concOps void st0.loc st0.vm st0.sh) = conc void st0 := rfl
                                         rw [this, hi1]
-                                        simp [conc, hc1, hloc1, concOps, List.filter_cons, Pend.unsp, valOf]
+                                        simp only [conc, Option.some.injEq, Prod.mk.injEq]
+                                        refine ⟨hloc1.symm, ?_⟩
+                                        rw [hc1, hloc1]
+                                        simp [concOps, List.filter_cons, Pend.unsp, valOf]
                                       · simp only [List.map_cons, Pend.shape, hsh2]
-                            · simp only [htc] at hn
+                            · have htc' : truthy c = false := by simpa using htc
+                              simp only [htc', Bool.false_eq_true, if_false] at hn
                               cases h1 : natL void e st0 with
                               | none => simp [h1] at hn
                               | some st1 =>
@@ -488,11 +492,13 @@ theorem natO_sound (truthy : α → Bool) (o : Op α) {st st' : NSt α} {shs' : 
                                         exact hsh1.2
                                       refine ⟨?_, sorted_cons_unsp _ _ rfl hs2, ?_⟩
                                       · rw [hconc]
-                                        simp only [interpO, htc]
+                                        simp only [interpO, htc', Bool.false_eq_true, if_false]
                                         have : (st0.loc, concOps void st0.loc st0.vm st0.sh) = conc void st0 := rfl
-                                        simp only [Bool.false_eq_true, if_false]
                                         rw [this, hi1]
-                                        simp [conc, hc1, hloc1, concOps, List.filter_cons, Pend.unsp, valOf]
+                                        simp only [conc, Option.some.injEq, Prod.mk.injEq]
+                                        refine ⟨hloc1.symm, ?_⟩
+                                        rw [hc1, hloc1]
+                                        simp [concOps, List.filter_cons, Pend.unsp, valOf]
                                       · simp only [List.map_cons, Pend.shape, hsh2]
 
 theorem natP_sound (truthy : α → Bool) (prog : List (Op α)) : ∀ {st st' : NSt α} {shs' : List Sh},
@@ -523,5 +529,184 @@ theorem natP_sound (truthy : α → Bool) (prog : List (Op α)) : ∀ {st st' : 
               obtain ⟨hi2, hw2, hsh2⟩ := ih hw1 ha hn
               refine ⟨?_, hw2, hsh2⟩
               simp only [interpP, hi, hi2]
+
+/-! ## The theorems -/
+
+/-- **Late materialisation of operands is unobservable — under the two guards.**  From any state whose shadow
+stack is ordered, for any operand program that passes `absP true` (GUARD 1: no `setl i` while a reference to
+slot `i` is pending; GUARD 2: both branches of a conditional leave every pending entry in the same state, and no
+entry that was a reference is an unspilled value afterwards): whenever native code reaches a state, the
+interpreter, started on the concretisation of the initial state, reaches the concretisation of that state — the
+same slots and the same operand stack. -/
+theorem shadow_transparent (truthy : α → Bool) (prog : List (Op α)) (st st' : NSt α) (hw : sorted st.sh = true)
+    (hsafe : (absP true prog (st.sh.map Pend.shape)).isSome = true)
+    (hn : natP void truthy prog st = some st') :
+    interpP void truthy prog (conc void st) = some (conc void st') := by
+  cases h : absP true prog (st.sh.map Pend.shape) with
+  | none => simp [h] at hsafe
+  | some shs => exact (natP_sound void truthy prog hw h hn).1
+
+/-- At procedure entry (nothing pending, nothing spilled). -/
+theorem shadow_transparent_entry (truthy : α → Bool) (prog : List (Op α)) (l : List α) (st' : NSt α)
+    (hsafe : (absP (α := α) true prog []).isSome = true)
+    (hn : natP void truthy prog { loc := l, vm := [], sh := [] } = some st') :
+    interpP void truthy prog (l, []) = some (conc void st') :=
+  shadow_transparent void truthy prog { loc := l, vm := [], sh := [] } st' rfl hsafe hn
+
+/-- What the code generator computes statically are the run-time shapes (so the guards can be checked on the
+byte code alone, which is what checks/c02.py's class predicates approximate). -/
+theorem shapes_static (truthy : α → Bool) (prog : List (Op α)) (st st' : NSt α) (shs : List Sh)
+    (hw : sorted st.sh = true) (h : absP true prog (st.sh.map Pend.shape) = some shs)
+    (hn : natP void truthy prog st = some st') : st'.sh.map Pend.shape = shs :=
+  (natP_sound void truthy prog hw h hn).2.2
+
+/-! ## Witnesses: operand programs of the open findings (model of the REAL generator vs interpreter) -/
+
+section witnesses
+def wadd := W.arith (· + ·)
+def wsub := W.arith (· - ·)
+def wid : W → W := fun x => x
+def entry (l : List W) : NSt W := { loc := l, vm := [], sh := [] }
+def runN (p : List (Op W)) (l : List W) : Option (List W × List W) :=
+  (natP W.void W.truthy p (entry l)).map (conc W.void)
+def runI (p : List (Op W)) (l : List W) : Option (List W × List W) := interpP W.void W.truthy p (l, [])
+def guards (p : List (Op W)) : Bool := (absP (α := W) true p []).isSome
+
+/-- K02g `(+ x0 (begin (set! x0 3) x0))`: READLOCAL0, 3, SETLOCAL 0, POPSINGLE, READLOCAL0, ADD. -/
+def k02g : List (Op W) :=
+  [.s (.read 0), .s (.const (.int 3)), .s (.setl 0), .s .drop, .s (.read 0), .s (.bin wadd)]
+
+/-- (f1 0) => 6 natively, 3 interpreted — the values the real engine gives; GUARD 1 fails. -/
+theorem k02g_witness : guards k02g = false ∧ runN k02g [.int 0] = some ([.int 3], [.int 6]) ∧
+    runI k02g [.int 0] = some ([.int 3], [.int 3]) := by decide
+
+/-- K02i `(- x (if (< 3 y) x y))`: the then branch's moving read materialises the pending reference to `x` on
+ITS path only; the state after the join says "still a reference". -/
+def k02i : List (Op W) :=
+  [.s (.read 0), .s (.const (.int 3)), .s (.read 1), .s (.bin W.lt), .ite [.move 0] [.move 1], .s (.bin wsub)]
+
+/-- (a1 -1 7): `- expects a number, found #<void>` natively, 0 interpreted; (a1 3 0) agrees; GUARD 2 fails. -/
+theorem k02i_witness : guards k02i = false ∧
+    runN k02i [.int (-1), .int 7] = some ([.void, .int 7], [.void]) ∧
+    runI k02i [.int (-1), .int 7] = some ([.void, .int 7], [.int 0]) ∧
+    runN k02i [.int 3, .int 0] = runI k02i [.int 3, .int 0] := by decide
+
+/-- K02n `(g (h 1) (k 2) (+ 0 (if c 0 (err 9))))`: only the ELSE branch contains a call, so only it spills the
+pending operands; the state after the join says "spilled" and on the then path the consumer pops operands from
+the VM stack that were never pushed (in the real engine: the frame's last local — "yields the last parameter",
+the box `'#&-2`, `#<void>`). -/
+def k02nElse : List (Op W) :=
+  [.s (.const (.int 1)), .s (.call wid), .s (.const (.int 2)), .s (.call wid), .s (.const (.int 0)), .s (.read 0),
+   .ite [.const (.int 0)] [.const (.int 9), .call wid], .s (.bin wadd)]
+
+theorem k02n_else_spills_witness : guards k02nElse = false ∧
+    runN k02nElse [.bool true] = some ([.bool true], [.int 1]) ∧
+    runI k02nElse [.bool true] = some ([.bool true], [.int 0, .int 2, .int 1]) ∧
+    runN k02nElse [.bool false] = runI k02nElse [.bool false] := by decide
+
+/-- The `lp` loop `(lp (+ i 1) (+ a 0) (if ok (not (= i 9)) #f))` (user-level `+`, `=`, `not` are calls): only
+the THEN branch spills; the state after the join says "not spilled", the operands are pushed a second time and
+the self tail call takes its arguments one position off: (i a ok) := (a a ok') — `i` never reaches the bound. -/
+def lpLoop : List (Op W) :=
+  [.s (.read 0), .s (.call wid), .s (.read 1), .s (.call wid), .s (.read 2),
+   .ite [.read 0, .call wid] [.const (.bool false)], .s (.call wid)]
+
+theorem lp_then_spills_witness : guards lpLoop = false ∧
+    runN lpLoop [.int 0, .int 5, .bool true] =
+      some ([.int 0, .int 5, .bool true], [.int 0, .int 5, .int 5, .int 0]) ∧
+    runI lpLoop [.int 0, .int 5, .bool true] = some ([.int 0, .int 5, .bool true], [.int 0, .int 5, .int 0]) ∧
+    runN lpLoop [.int 0, .int 5, .bool false] = runI lpLoop [.int 0, .int 5, .bool false] := by decide
+
+/-- Non-vacuity: guarded programs on which native code does reach a state — a straight-line moving read after a
+pending reference `(- x (+ x 1))` (the case the real code handles: `matRef`), and a conditional whose branches
+both call. -/
+def okMove : List (Op W) := [.s (.read 0), .s (.move 0), .s (.const (.int 1)), .s (.bin wadd), .s (.bin wsub)]
+def okBoth : List (Op W) :=
+  [.s (.read 0), .s (.call wid), .s (.read 1), .ite [.read 0, .call wid] [.const (.int 7), .call wid], .s (.bin wadd)]
+
+theorem guarded_examples : guards okMove = true ∧ runN okMove [.int 5] = some ([.void], [.int (-1)]) ∧
+    guards okBoth = true ∧ (runN okBoth [.int 4, .bool true]).isSome = true ∧
+    (runN okBoth [.int 4, .bool false]).isSome = true := by decide
+
+/-- Both branches move the same pending reference: the value after the join would be an SSA value of the else
+block; Cranelift's verifier rejects the function ("uses value from non-dominating inst"), it stays interpreted. -/
+def bothMove : List (Op W) := [.s (.read 0), .s (.read 1), .ite [.move 0] [.move 0], .s (.bin wsub)]
+theorem both_move_not_compiled : runN bothMove [.int 1, .bool true] = none ∧ guards bothMove = false := by decide
+
+/-- **The guards are needed**: without them the statement of `shadow_transparent` is false. -/
+theorem shadow_transparent_false :
+    ¬ (∀ (prog : List (Op W)) (st st' : NSt W), sorted st.sh = true → natP W.void W.truthy prog st = some st' →
+        interpP W.void W.truthy prog (conc W.void st) = some (conc W.void st')) := by
+  intro h
+  have h1 := h k02g (entry [.int 0]) { loc := [.int 3], vm := [], sh := [.val (.int 6) false] } rfl (by decide)
+  revert h1
+  decide
+end witnesses
+
+/-! ## `interpS` is the C01C VM on one frame: the operand pushes this model transforms are `C01C.step`'s
+(frame base 0: slots `l`, operands above them, top last) -/
+
+section tie
+open SteelVerif.C01C
+
+theorem getElem?_slots (l o : List VVal) (i : Nat) (v : VVal) (h : l[i]? = some v) : (l ++ o)[i]? = some v := by
+  have hi : i < l.length := by
+    cases Nat.lt_or_ge i l.length with
+    | inl h' => exact h'
+    | inr h' => simp [List.getElem?_eq_none h'] at h
+  rw [List.getElem?_append_left hi]
+  exact h
+
+theorem read_is_step (code : List Instr) (ip i : Nat) (l o l' o' : List VVal) (σ : St (List Instr))
+    (hc : code[ip]? = some (.READLOCAL i)) (h : interpS (α := VVal) .void (.read i) (l, o) = some (l', o')) :
+    step { code := code, ip := ip, stack := l ++ o.reverse, frames := [], st := σ } =
+      .next { code := code, ip := ip + 1, stack := l' ++ o'.reverse, frames := [], st := σ } := by
+  simp only [interpS] at h
+  cases hl : l[i]? with
+  | none => simp [hl] at h
+  | some v =>
+      simp only [hl, Option.some.injEq, Prod.mk.injEq] at h
+      obtain ⟨h1, h2⟩ := h
+      subst h1 h2
+      simp [step, hc, spOf, getElem?_slots l o.reverse i v hl]
+
+theorem move_is_step (code : List Instr) (ip i : Nat) (l o l' o' : List VVal) (σ : St (List Instr))
+    (hc : code[ip]? = some (.MOVEREADLOCAL i)) (h : interpS (α := VVal) .void (.move i) (l, o) = some (l', o')) :
+    step { code := code, ip := ip, stack := l ++ o.reverse, frames := [], st := σ } =
+      .next { code := code, ip := ip + 1, stack := l' ++ o'.reverse, frames := [], st := σ } := by
+  simp only [interpS] at h
+  cases hl : l[i]? with
+  | none => simp [hl] at h
+  | some v =>
+      simp only [hl, Option.some.injEq, Prod.mk.injEq] at h
+      obtain ⟨h1, h2⟩ := h
+      subst h1 h2
+      have hi : i < l.length := by
+        cases Nat.lt_or_ge i l.length with
+        | inl h' => exact h'
+        | inr h' => simp [List.getElem?_eq_none h'] at hl
+      simp [step, hc, spOf, getElem?_slots l o.reverse i v hl, List.set_append_left _ _ hi]
+
+theorem setl_is_step (code : List Instr) (ip i : Nat) (l o l' o' : List VVal) (σ : St (List Instr))
+    (hc : code[ip]? = some (.SETLOCAL i)) (h : interpS (α := VVal) .void (.setl i) (l, o) = some (l', o')) :
+    step { code := code, ip := ip, stack := l ++ o.reverse, frames := [], st := σ } =
+      .next { code := code, ip := ip + 1, stack := l' ++ o'.reverse, frames := [], st := σ } := by
+  cases o with
+  | nil => simp [interpS] at h
+  | cons v o =>
+      simp only [interpS] at h
+      cases hl : l[i]? with
+      | none => simp [hl] at h
+      | some old =>
+          simp only [hl, Option.some.injEq, Prod.mk.injEq] at h
+          obtain ⟨h1, h2⟩ := h
+          subst h1 h2
+          have hi : i < l.length := by
+            cases Nat.lt_or_ge i l.length with
+            | inl h' => exact h'
+            | inr h' => simp [List.getElem?_eq_none h'] at hl
+          have hst : l ++ (v :: o).reverse = (l ++ o.reverse) ++ [v] := by simp
+          simp [step, hc, spOf, hst, getElem?_slots l o.reverse i old hl, List.set_append_left _ _ hi]
+end tie
 
 end SteelVerif.C02J
